@@ -667,3 +667,100 @@ func evalC19Wait(c *Ctx, cs EnumCase) EnumResult {
 func c19WaitPlan() *EnumPlan {
 	return &EnumPlan{Name: "event-wait-timeouts", Cases: c19WaitCases, Eval: evalC19Wait}
 }
+
+// Holders keep their primitive for the WHOLE expiry: a primitive taken with expiry 2 s at every phase of the
+// server's second (0..900 ms) must still refuse a contender on another connection 1.0 / 1.45 / 1.9 s later.
+type c19EdgeArg struct {
+	Kind  string `json:"k"`
+	Phase int    `json:"p"` // ms after a whole virtual second at which the holder acquires
+	Probe int    `json:"q"` // ms after the acquisition at which the contender tries
+}
+
+func c19EdgeCases(quick bool) []EnumCase {
+	var out []EnumCase
+	for _, k := range []string{"lock", "rlock", "prioritylock", "semaphore-1", "flow-1", "rwlock-writer-vs-reader", "rwlock-reader-vs-writer"} {
+		for ph := 0; ph < 1000; ph += 100 {
+			for _, pr := range []int{1000, 1450, 1900} {
+				out = append(out, mkCase(fmt.Sprintf("expiry-boundary/%s/phase%d/probe%d", k, ph, pr), c19EdgeArg{k, ph, pr}))
+			}
+		}
+	}
+	return out
+}
+
+func evalC19Edge(c *Ctx, cs EnumCase) EnumResult {
+	var a c19EdgeArg
+	if err := json.Unmarshal(cs.Arg, &a); err != nil {
+		return EnumResult{Err: err.Error()}
+	}
+	res := EnumResult{Nontrivial: true}
+	var engErr, msg string
+	rt := vrt.Run(vrt.Options{MaxPoints: 100_000_000}, func() {
+		node := hapi.Factories["n0"](hapi.Config{FastKeys: 4, Concurrent: 1})
+		if err := node.Start(); err != nil {
+			engErr = err.Error()
+			return
+		}
+		vrt.AdvanceTo(1300 * ms)
+		var cs []*cl.Client
+		for i := 0; i < 2; i++ {
+			cc := cl.NewClient("127.0.0.1", 5658)
+			if err := cc.Open(); err != nil {
+				engErr = "client open: " + err.Error()
+				return
+			}
+			cs = append(cs, cc)
+		}
+		vrt.Quiesce()
+		key := ckey(51)
+		var take, probe func() error
+		switch a.Kind {
+		case "lock":
+			h, p := cs[0].Lock(key, 0, 2), cs[1].Lock(key, 0, 2)
+			take, probe = func() error { _, e := h.Lock(); return e }, func() error { _, e := p.Lock(); return e }
+		case "rlock":
+			h, p := cs[0].RLock(key, 0, 2), cs[1].RLock(key, 0, 2)
+			take, probe = func() error { _, e := h.Lock(); return e }, func() error { _, e := p.Lock(); return e }
+		case "prioritylock":
+			h, p := cs[0].PriorityLock(key, 1, 0, 2), cs[1].PriorityLock(key, 5, 0, 2)
+			take, probe = func() error { _, e := h.Lock(); return e }, func() error { _, e := p.Lock(); return e }
+		case "semaphore-1":
+			h, p := cs[0].Semaphore(key, 0, 2, 1), cs[1].Semaphore(key, 0, 2, 1)
+			take, probe = func() error { _, e := h.Acquire(); return e }, func() error { _, e := p.Acquire(); return e }
+		case "flow-1":
+			h, p := cs[0].MaxConcurrentFlow(key, 1, 0, 2), cs[1].MaxConcurrentFlow(key, 1, 0, 2)
+			take, probe = func() error { _, e := h.Acquire(); return e }, func() error { _, e := p.Acquire(); return e }
+		case "rwlock-writer-vs-reader":
+			h, p := cs[0].RWLock(key, 0, 2), cs[1].RWLock(key, 0, 2)
+			take, probe = func() error { _, e := h.RLock(); return e }, func() error { _, e := p.Lock(); return e }
+		case "rwlock-reader-vs-writer":
+			h, p := cs[0].RWLock(key, 0, 2), cs[1].RWLock(key, 0, 2)
+			take, probe = func() error { _, e := h.Lock(); return e }, func() error { _, e := p.RLock(); return e }
+		}
+		vrt.AdvanceTo(3*sec + int64(a.Phase)*ms)
+		if err := take(); err != nil {
+			engErr = "the holder could not acquire: " + err.Error()
+			return
+		}
+		vrt.AdvanceTo(3*sec + int64(a.Phase)*ms + int64(a.Probe)*ms)
+		if err := probe(); err == nil {
+			msg = fmt.Sprintf("%s taken with expiry 2 s at second-phase %d ms: %d ms later a contender on another connection was admitted although the holder is still inside its expiry", a.Kind, a.Phase, a.Probe)
+		}
+	})
+	if engErr != "" {
+		return EnumResult{Err: engErr}
+	}
+	if rt.Crash != nil {
+		res.Viol = append(res.Viol, explore.Violation{Sig: "C19:crash", Msg: rt.Crash.Value})
+		return res
+	}
+	if msg != "" {
+		res.Viol = append(res.Viol, explore.Violation{Sig: "C19:holder-lost-its-primitive-before-expiry", Msg: msg})
+	}
+	res.Obs = fmt.Sprintf("%s/%d/%d refused=%v", a.Kind, a.Phase, a.Probe, msg == "")
+	return res
+}
+
+func c19EdgePlan() *EnumPlan {
+	return &EnumPlan{Name: "expiry-boundary", Cases: c19EdgeCases, Eval: evalC19Edge}
+}
